@@ -227,6 +227,8 @@ def range_aspect_queries(num, tier, only=None):
     rms, ids, conts = RANGE_ASPECTS[num]
     qs = []
     for q in k5_queries(18, tier, only):
+        if q.meta.get('kf_probe'):
+            continue  # the TTL == 0 probe belongs to C18's own check
         if q.meta['rmethod'] in rms and (conts is None or q.meta['cont'] in conts):
             q.meta['aspect_ids'] = ids
             qs.append(q)
